@@ -648,6 +648,28 @@ def check_normalize_body(ctx, res, config="all"):
         else:
             res.fail(Finding("R1-normalize-body", b.path, "normalize pops digits but not in a loop that runs exactly while the last digit is zero", b))
         errs = None
+    elif "truncate" in names and "rposition" not in names and {"take_while", "count", "rev"} <= set(names):
+        # idiom C: truncate(len - iter().rev().take_while(|d| d == 0).count())
+        from .tests import Atoms as _A2, calls_of as _co2
+
+        okc = False
+        for i, t in b.calls():
+            if callee_name(t) == "truncate" and i in b.live_blocks():
+                a_ = _A2(b).of_operand(t["args"][1])
+                if {"len", "count", "take_while", "rev"} <= _co2(a_):
+                    okc = True
+        pred = False
+        for c_ in [c for c in facts.bodies if c.kind == "Closure" and c.j.get("closure_of") == b.path]:
+            for i, si, s_ in c_.stmts():
+                rv = s_.get("rv")
+                if rv and rv["k"] == "binop" and rv["op"] == "Eq" and op_const(rv["b"]) == 0:
+                    pred = True
+        if okc and pred:
+            res.ok("R1-normalize-body", b.path, {"idiom": "truncate(len - count of high zeros)"})
+        else:
+            res.note("R1-normalize-body: BigUint::normalize truncates by a count that is not recognisably the number of high zero digits - not decided")
+            res.ok("R1-normalize-body", b.path, {"undecided": "unrecognised idiom"}, nontrivial=False)
+        errs = None
     elif "truncate" not in names and "rposition" not in names:
         res.note("R1-normalize-body: BigUint::normalize uses neither truncate(rposition+1) nor a pop-while-zero loop - its stripping of all high zeros is not decided")
         res.ok("R1-normalize-body", b.path, {"undecided": "unrecognised idiom"}, nontrivial=False)
